@@ -6,6 +6,7 @@ import (
 	"unicode/utf8"
 
 	"oss.terrastruct.com/d2/d2ast"
+	"oss.terrastruct.com/d2/d2parser"
 )
 
 // Narrow, decidable signatures of the recorded C03 findings (coq/C03/findings.json).  Each is a
@@ -247,6 +248,11 @@ func c03Signatures(text string, m *d2ast.Map, f1 string, m1 *d2ast.Map) []string
 		}
 		return true
 	})
+	// the parser's raw text of an unquoted string (escaped newlines removed, trailing white space trimmed
+	// separately from the value) does not denote the string any more
+	if c03RawBroken(m) {
+		add("C03-raw-text-not-reparsable")
+	}
 	// splitLeadingIndent counts runes but slices bytes: a line inside a multi-line block string or block
 	// comment whose leading white space contains a multi-byte space
 	lines := strings.Split(text, "\n")
@@ -295,4 +301,54 @@ func c03Signatures(text string, m *d2ast.Map, f1 string, m1 *d2ast.Map) []string
 		})
 	}
 	return kf
+}
+
+// c03RawBroken: some unquoted string of the AST has a raw text that, parsed on its own, is not that string.
+func c03RawBroken(m *d2ast.Map) bool {
+	broken := false
+	check := func(us *d2ast.UnquotedString, inKey bool) {
+		if us == nil || len(us.Value) != 1 || us.Value[0].String == nil || us.Value[0].StringRaw == nil {
+			return
+		}
+		raw, val := *us.Value[0].StringRaw, *us.Value[0].String
+		defer func() {
+			if recover() != nil {
+				broken = true
+			}
+		}()
+		if inKey {
+			k, err := d2parser.ParseKey(raw)
+			if err != nil || k == nil || len(k.Path) != 1 || k.Path[0].Unbox().ScalarString() != val {
+				broken = true
+			}
+			return
+		}
+		v, err := d2parser.ParseValue(raw)
+		if err != nil || v == nil {
+			broken = true
+			return
+		}
+		if sc, ok := v.(d2ast.Scalar); !ok || !strings.EqualFold(sc.ScalarString(), val) {
+			broken = true
+		}
+	}
+	d2ast.Walk(m, func(n d2ast.Node) bool {
+		switch n := n.(type) {
+		case *d2ast.KeyPath:
+			for _, sb := range n.Path {
+				if us, ok := sb.Unbox().(*d2ast.UnquotedString); ok {
+					check(us, true)
+				}
+			}
+		case *d2ast.Key:
+			if us, ok := n.Primary.Unbox().(*d2ast.UnquotedString); ok {
+				check(us, false)
+			}
+			if us, ok := n.Value.Unbox().(*d2ast.UnquotedString); ok {
+				check(us, false)
+			}
+		}
+		return !broken
+	})
+	return broken
 }
